@@ -429,12 +429,13 @@ class Tr:
         out += [f"Definition cls_{c} : Z := {v}." for c, v in CLS.items()]
         out += ["", self.opts.coq_decl(), "", self.inst.coq_decl(), ""]
         # references held by a configuration, and its full content (references observed by value)
-        refs, content = [], []
+        refs, content, ref_paths = [], [], []
         for rec, pre in ((self.inst, "c"), (self.opts, "(f__options c)")):
             for n, t, _ in rec.fields:
                 p = f"({rec.proj(n)} {pre})"
                 if t == "ref":
                     refs.append(p)
+                    ref_paths.append(n if rec is self.inst else f"_options.{n}")
                     content.append(f"VObj (hget h {p})")
                 elif t != "opts":
                     content.append({"Z": "VZ", "option Z": "VOptZ", "bool": "VBool"}[t] + " " + p)
@@ -460,7 +461,7 @@ class Tr:
         out.append("(* for the proofs: everything generated above may be unfolded by `autounfold with emu` *)")
         out.append("#[global] Hint Unfold step mk_root inst_refs content run_args " + " ".join(unf) + " : emu.\n")
         meta = {"methods": [{"name": m, "arg": self.done[m][1]} for m in pubs], "run_names": run_names,
-                "n_ref_fields": len(refs), "ref_fields": refs, "cls": CLS}
+                "ref_paths": ref_paths, "cls": CLS}
         return "\n".join(out), meta
 
 
